@@ -62,13 +62,176 @@ theorem fuseByName_eq (b : Build) : fuseByName b = (fuseAcc b).map (·.2) := by
   · funext acc e
     unfold itemOfExtra
     by_cases h : e.1.rows.isEmpty = true
-    · simp [h]
-    · simp [h, fuseStep]
+    · simp only [if_pos h]
+    · simp only [if_neg h]; rfl
   · congr 1
     funext acc r
     unfold itemOfRes
     by_cases h : (¬ r.added ∨ r.o.rows.isEmpty = true)
     · simp only [if_pos h]
     · simp only [if_neg h]; rfl
+
+/-! ### invariants of the fold -/
+
+def ItemOk (it : Item) : Prop := (it.proto.tag, it.proto.haplotype, it.proto.name) = it.key
+
+def AccOk (acc : List (FKey × Scaffold)) : Prop :=
+  (∀ p ∈ acc, (p.2.tag, p.2.haplotype, p.2.name) = p.1) ∧ (acc.map (·.1)).Nodup
+
+/-- the dict has an entry under `k` whose rows contain `rows` as a contiguous block -/
+def Holds (acc : List (FKey × Scaffold)) (k : FKey) (rows : List Row) : Prop :=
+  ∃ s, dGet? acc k = some s ∧ rows <:+: s.rows
+
+theorem appendRows_prefix (rows othr : List Row) (g : Option Gap) : rows <+: Scaffold.appendRows rows othr g := by
+  unfold Scaffold.appendRows
+  cases g with
+  | none => exact List.prefix_append _ _
+  | some g =>
+    by_cases h : rows.isEmpty = true
+    · simp only [if_pos h]
+      have : rows = [] := by simpa using h
+      subst this; exact List.nil_prefix
+    · simp only [if_neg h, List.append_assoc]; exact List.prefix_append _ _
+
+theorem appendRows_suffix (rows othr : List Row) (g : Option Gap) : othr <:+ Scaffold.appendRows rows othr g := by
+  unfold Scaffold.appendRows
+  cases g with
+  | none => exact List.suffix_append _ _
+  | some g =>
+    by_cases h : rows.isEmpty = true
+    · simp only [if_pos h]; exact List.suffix_refl _
+    · simp only [if_neg h]; exact List.suffix_append _ _
+
+theorem fuseStep_none (acc : List (FKey × Scaffold)) (it : Item) (hg : dGet? acc it.key = none) :
+    fuseStep acc it = acc ++ [(it.key, { it.proto with rows := Scaffold.appendRows [] it.rows (it.gap []) })] := by
+  unfold fuseStep; rw [hg]
+
+theorem fuseStep_some (acc : List (FKey × Scaffold)) (it : Item) (s : Scaffold) (hg : dGet? acc it.key = some s) :
+    fuseStep acc it = dSet acc it.key { s with rows := Scaffold.appendRows s.rows it.rows (it.gap s.rows) } := by
+  unfold fuseStep; rw [hg]
+
+theorem fuseStep_ok (acc : List (FKey × Scaffold)) (it : Item) (ha : AccOk acc) (hi : ItemOk it) :
+    AccOk (fuseStep acc it) := by
+  cases hg : dGet? acc it.key with
+  | none =>
+    rw [fuseStep_none acc it hg]
+    refine ⟨?_, ?_⟩
+    · intro p hp
+      rcases List.mem_append.1 hp with hp | hp
+      · exact ha.1 p hp
+      · simp at hp; subst hp; exact hi
+    · simp only [List.map_append, List.map_cons, List.map_nil]
+      refine List.nodup_append.2 ⟨ha.2, by simp, ?_⟩
+      intro a ha' b hb
+      simp at hb; subst hb
+      intro e; subst e
+      exact (dGet?_none_iff acc it.key).1 hg ha'
+  | some s =>
+    rw [fuseStep_some acc it s hg]
+    refine ⟨?_, ?_⟩
+    · intro p hp
+      rcases mem_dSet _ _ _ _ hp with hp | hp
+      · subst hp
+        exact ha.1 (it.key, s) (dGet?_mem _ _ _ hg)
+      · exact ha.1 p hp
+    · rw [dSet_keys_of_some acc it.key _ s hg]; exact ha.2
+
+theorem fuseStep_holds_new (acc : List (FKey × Scaffold)) (it : Item) : Holds (fuseStep acc it) it.key it.rows := by
+  unfold Holds
+  cases hg : dGet? acc it.key with
+  | none =>
+    rw [fuseStep_none acc it hg]
+    refine ⟨{ it.proto with rows := Scaffold.appendRows [] it.rows (it.gap []) }, ?_, ?_⟩
+    · rw [dGet?_append_single, hg]; simp only [if_true]
+    · exact (appendRows_suffix _ _ _).isInfix
+  | some s =>
+    rw [fuseStep_some acc it s hg]
+    refine ⟨_, dGet?_dSet_self _ _ _, ?_⟩
+    exact (appendRows_suffix _ _ _).isInfix
+
+theorem fuseStep_holds_mono (acc : List (FKey × Scaffold)) (it : Item) (k : FKey) (rows : List Row)
+    (h : Holds acc k rows) : Holds (fuseStep acc it) k rows := by
+  obtain ⟨s, hs, hr⟩ := h
+  unfold Holds
+  cases hg : dGet? acc it.key with
+  | none =>
+    rw [fuseStep_none acc it hg]
+    refine ⟨s, ?_, hr⟩
+    rw [dGet?_append_single, hs]
+  | some s' =>
+    rw [fuseStep_some acc it s' hg]
+    by_cases hk : it.key = k
+    · subst hk
+      rw [hg] at hs; cases hs
+      refine ⟨_, dGet?_dSet_self _ _ _, ?_⟩
+      exact List.IsInfix.trans hr (appendRows_prefix _ _ _).isInfix
+    · refine ⟨s, ?_, hr⟩
+      rw [dGet?_dSet_ne _ _ _ _ hk, hs]
+
+theorem fuseStep_keys (acc : List (FKey × Scaffold)) (it : Item) (p : FKey × Scaffold) (hp : p ∈ fuseStep acc it) :
+    p.1 ∈ acc.map (·.1) ∨ p.1 = it.key := by
+  cases hg : dGet? acc it.key with
+  | none =>
+    rw [fuseStep_none acc it hg] at hp
+    rcases List.mem_append.1 hp with hp | hp
+    · exact .inl (List.mem_map.2 ⟨p, hp, rfl⟩)
+    · simp at hp; subst hp; exact .inr rfl
+  | some s =>
+    rw [fuseStep_some acc it s hg] at hp
+    rcases mem_dSet _ _ _ _ hp with hp | hp
+    · subst hp; exact .inr rfl
+    · exact .inl (List.mem_map.2 ⟨p, hp, rfl⟩)
+
+theorem fuseFold_spec (items : List Item) (hi : ∀ it ∈ items, ItemOk it) :
+    ∀ acc, AccOk acc →
+      AccOk (items.foldl fuseStep acc) ∧
+      (∀ k rows, Holds acc k rows → Holds (items.foldl fuseStep acc) k rows) ∧
+      (∀ it ∈ items, Holds (items.foldl fuseStep acc) it.key it.rows) ∧
+      (∀ p ∈ items.foldl fuseStep acc, p.1 ∈ acc.map (·.1) ∨ ∃ it ∈ items, it.key = p.1) := by
+  induction items with
+  | nil =>
+    intro acc ha
+    exact ⟨ha, fun _ _ h => h, fun it h => (by cases h), fun p hp => Or.inl (List.mem_map.2 ⟨p, hp, rfl⟩)⟩
+  | cons it r ih =>
+    intro acc ha
+    simp only [List.foldl_cons]
+    have hit : ItemOk it := hi it (by simp)
+    obtain ⟨h1, h2, h3, h4⟩ := ih (fun x hx => hi x (by simp [hx])) (fuseStep acc it) (fuseStep_ok acc it ha hit)
+    refine ⟨h1, ?_, ?_, ?_⟩
+    · intro k rows h
+      exact h2 k rows (fuseStep_holds_mono acc it k rows h)
+    · intro x hx
+      rcases List.mem_cons.1 hx with hx | hx
+      · subst hx; exact h2 _ _ (fuseStep_holds_new acc x)
+      · exact h3 x hx
+    · intro p hp
+      rcases h4 p hp with h | ⟨x, hx, hk⟩
+      · obtain ⟨q, hq, hqk⟩ := List.mem_map.1 h
+        rcases fuseStep_keys acc it q hq with h | h
+        · exact .inl (hqk ▸ h)
+        · exact .inr ⟨it, by simp, by rw [← hqk, h]⟩
+      · exact .inr ⟨x, by simp [hx], hk⟩
+
+theorem itemOfRes_ok (b : Build) (r : Res) (it : Item) (h : itemOfRes b r = some it) : ItemOk it := by
+  unfold itemOfRes at h
+  split at h
+  · cases h
+  · cases h; rfl
+
+theorem itemOfExtra_ok (b : Build) (e : Scaffold × Option (Fragment × Option Gap)) (it : Item)
+    (h : itemOfExtra b e = some it) : ItemOk it := by
+  unfold itemOfExtra at h
+  split at h
+  · cases h
+  · cases h; rfl
+
+theorem fuseItems_ok (b : Build) : ∀ it ∈ fuseItems b, ItemOk it := by
+  intro it h
+  unfold fuseItems at h
+  rcases List.mem_append.1 h with h | h
+  · obtain ⟨r, _, hr⟩ := List.mem_filterMap.1 h
+    exact itemOfRes_ok b r it hr
+  · obtain ⟨e, _, he⟩ := List.mem_filterMap.1 h
+    exact itemOfExtra_ok b e it he
 
 end AgpTpf.C09
